@@ -139,7 +139,7 @@ Qed.
 From CG Require Import Spec.KnownC01 Proofs.SubBridge Proofs.BashMeaningAll.
 
 (** The whole decided domain: literals, commands, undefined nonterminals, and within-word
-    expressions over the same kinds of pieces, outside [KnownC01.greedy_shadow]. *)
+    expressions over the same kinds of pieces. *)
 Theorem bash_meaning_all :
   forall pick fuel v c om os nd a (benv : BashSem.env) (en : Meaning.env) ws p,
     sub_tree (v_expr v) = true -> alts_nonempty (v_expr v) = true ->
@@ -152,7 +152,6 @@ Theorem bash_meaning_all :
     (forall cm cid, Tables.index_of cm (a_commands a) = Some cid ->
                     spec_candidates (cmd_output benv cid) = candidates en cm) ->
     ambiguous_run en (start (v_expr v)) ws = false ->
-    greedy_shadow (v_expr v) en ws = false ->
     match complete (v_expr v) en ws p with
     | None => exists log, run_from Repaired (d_start (c_main c)) a benv ws p = Ok (mkresult 1 [] log)
     | Some (req, al) =>
@@ -160,11 +159,11 @@ Theorem bash_meaning_all :
                           /\ (forall x, In x reply <-> In x req) /\ incl req al
     end.
 Proof.
-  intros pick fuel v c om os nd a benv en ws p Htree Hne Hc Hall Hord Hvalid Hsords Hdet Hdom Henvok Hic Hwb Hbok Hplain Hprint Henv Hamb Hgs.
+  intros pick fuel v c om os nd a benv en ws p Htree Hne Hc Hall Hord Hvalid Hsords Hdet Hdom Henvok Hic Hwb Hbok Hplain Hprint Henv Hamb.
   destruct (compiled_facts pick fuel v c Hne Hc) as [HL [Hwf [Hinp Htrim]]].
   assert (Hstrip : forall ms, (forall m, In m ms -> String.prefix p m = true) ->
                               strip_reply benv p ms = Ok (map (Meaning.strip (Meaning.e_wordbreaks en) p) ms)).
   { intros ms Hms. rewrite <- Hwb. apply strip_reply_plain; assumption. }
   apply (run_meaning_all c (v_expr v) om os nd a benv en p Htree Hne HL Hwf Hinp Htrim Hall Hord Hvalid Hdom Henvok
-           (fun k l => sub_facts pick fuel v c k l Hne Hc) Hdet Hsords Hic Hprint Hstrip Henv ws Hamb Hgs).
+           (fun k l => sub_facts pick fuel v c k l Hne Hc) Hdet Hsords Hic Hprint Hstrip Henv ws Hamb).
 Qed.
